@@ -121,7 +121,7 @@ def strat_pairs(tier):
         'prec': st.sampled_from([64, 64, 64, 32]), 'seed': U.seeds, 'mag': MAG, 'fftbackend': U.fft_backends,
         # what the shared executor did before the checked pair: nothing (cleared), the same geometry with another shift, or 40 other geometries
         # interleaved with the forward leg of this one (bounded caches: the geometry is hit again and again while others come and go)
-        'hist': st.sampled_from(['none', 'none', 'none', 'other-shift', 'interleaved-many']),
+        'hist': st.sampled_from(['none', 'none', 'none', 'other-shift', 'interleaved-many', 'one-axis-twins', 'one-axis-twins']),
         # the pair through the executors, or through focus_fixed_sampling / unfocus_fixed_sampling (functions or Wavefront methods) with physical
         # spacings chosen so that the focal grid is the full band (square geometry: one dx per plane)
         'via': st.sampled_from(['executor', 'executor', 'executor', 'function', 'wavefront']),
@@ -214,6 +214,17 @@ def _check_pairs_inner(case, ctx):
         if hist == 'other-shift':
             osh = (0, 0) if shifted else (-1, 0.5)
             ctx.call(inv, np.asarray(ctx.call(fwd, f, Q, k, osh)), 1, tuple(shape), osh)
+        elif hist == 'one-axis-twins' and via == 'executor':
+            # earlier pairs that equal the checked one on one axis (length, Q, output samples, shift) and differ on the other axis only
+            for axis in (0, 1):
+                for dn, dk in ((1, 2), (3, 3)):
+                    s2, k2 = list(shape), list(k)
+                    s2[1 - axis] += dn
+                    k2[1 - axis] = s2[1 - axis] + extra[1 - axis] + dk
+                    Q2 = (k2[0] / s2[0], k2[1] / s2[1])
+                    Q2 = tuple(Q[i] if i == axis else Q2[i] for i in (0, 1))
+                    t = np.ones(tuple(s2), dtype=complex)
+                    ctx.call(inv, np.asarray(ctx.call(fwd, t, Q2, tuple(k2), sh)), 1, tuple(s2), sh)
         elif hist == 'interleaved-many':
             tiny = np.ones((2, 3), dtype=complex)
             for i in range(40):
